@@ -101,7 +101,7 @@ func (m *UpstreamClusterController) syncUpstreamCluster(obj interface{}) (syncqu
 		return syncqueue.Result{}, nil
 	}
 
-	_, err := m.lister.Get(cluster.Name)
+	latest, err := m.lister.Get(cluster.Name)
 	clusterName := strings.ToLower(cluster.Name)
 	if errors.IsNotFound(err) {
 		// clean cluster
@@ -111,6 +111,8 @@ func (m *UpstreamClusterController) syncUpstreamCluster(obj interface{}) (syncqu
 	if err != nil {
 		return syncqueue.Result{}, err
 	}
+	// the queued object may have waited for a retry and be superseded by now: apply what the lister holds
+	cluster = latest
 
 	if err := m.checkUpstreamServerNameConflict(cluster); err != nil {
 		klog.Errorf("ckeck cluster %v failed: %v", cluster.Name, err)
